@@ -48,3 +48,20 @@ fn test_macro_fuel() {
     let err = t.render(context!(macros => 5)).unwrap_err();
     assert_eq!(err.kind(), ErrorKind::OutOfFuel);
 }
+
+#[test]
+fn test_large_budgets() {
+    // budgets beyond isize::MAX must behave like any other sufficient budget
+    for budget in [100, i64::MAX as u64, i64::MAX as u64 + 1, u64::MAX - 1, u64::MAX] {
+        let mut env = Environment::new();
+        env.set_fuel(Some(budget));
+        let tmpl = env
+            .template_from_str("{% for x in range(3) %}{{ x }}{% endfor %}")
+            .unwrap();
+        let captured = tmpl.render_captured(()).unwrap();
+        assert_eq!(captured.output(), "012");
+        let (consumed, remaining) = captured.state().fuel_levels().unwrap();
+        assert_eq!(consumed, 18);
+        assert_eq!(remaining, budget - 18);
+    }
+}
